@@ -1,22 +1,9 @@
 #!/bin/bash
 # tools/check_benign.sh [name ...] — behaviour-preserving changes (seeded/benign/*): every
-# check must stay silent. Applies each to /repo, runs all quick checks, reverts. Evidence is restored.
+# check must stay silent. Each patch is applied to a scratch worktree (tools/altcheck.sh) and
+# all nine quick checks are run against it; /repo is not touched.
 cd /verif
 NAMES="$@"; [ -z "$NAMES" ] && NAMES=$(ls seeded/benign)
-mkdir -p /tmp/benign-ev; cp evidence/*.json /tmp/benign-ev/
 for n in $NAMES; do
-    [ -z "$(git -C /repo status --porcelain)" ] || { echo "/repo not clean"; exit 2; }
-    git -C /repo apply /verif/seeded/benign/$n/patch.diff || { echo "$n: patch does not apply"; continue; }
-    line="$n:"
-    for c in C03 C07 C08 C12 C13 C14 C17 C18 C19; do
-        ./check $c quick >/tmp/benign.out 2>&1; rc=$?
-        if [ $rc -ne 0 ]; then
-            line="$line $c=exit$rc[$(grep -E '^  signature:|HARNESS-ERROR' /tmp/benign.out | head -2 | sed 's/^  signature: //' | cut -c1-90 | tr '\n' ';')]"
-        else
-            line="$line $c=ok"
-        fi
-    done
-    git -C /repo checkout -q -- . ; git -C /repo clean -fdq
-    echo "$line"
+    echo "$n: $(tools/altcheck.sh /verif/seeded/benign/$n/patch.diff C03 C07 C08 C12 C13 C14 C17 C18 C19 | tr '\n' ' ')"
 done
-cp /tmp/benign-ev/*.json evidence/; rm -rf /tmp/benign-ev /tmp/benign.out
